@@ -175,6 +175,15 @@ class FaultRelay(Actor):
                     out = data[:12] + proto.encode_name(nl) + data[off:]
                 except (proto.ParseError, ValueError):
                     out = data
+            elif self.p.get("case_some") and self.faulty() and self.rng.random() < self.p["case_some"]:
+                # one of several parallel resolvers randomises the letter case of the names it asks for (0x20 hardening) while the
+                # others - the ones the client's codec tests went through - do not; the answer's question is put right again
+                try:
+                    labels, off = proto.read_name(data, 12)
+                    out = data[:12] + proto.encode_name(_swapcase_labels(labels, self.rng, "random")) + data[off:]
+                    self.stats["q_case_mangled"] = self.stats.get("q_case_mangled", 0) + 1
+                except (proto.ParseError, ValueError):
+                    out = data
             out = struct.pack(">H", uid) + out[2:]
             self.idmap[(rport, uid)] = (cid, data)
             if len(self.idmap) > 4000:
@@ -224,7 +233,7 @@ class FaultRelay(Actor):
                 for k in [k for k, v in self.idmap.items() if v[1] is orig]:
                     del self.idmap[k]
             out = struct.pack(">H", cid) + data[2:]
-            if self.p["case"] != "keep" or self.p["qx"]:
+            if self.p["case"] != "keep" or self.p["qx"] or self.p.get("case_some"):
                 # restore the client's spelling of the question (as resolvers do)
                 try:
                     _l, qoff = proto.read_name(data, 12)
